@@ -16,6 +16,7 @@ import (
 	"github.com/antlr/antlr4/runtime/Go/antlr"
 	"github.com/anz-bank/golden-retriever/reader/remotefs"
 	"github.com/sirupsen/logrus"
+	"google.golang.org/protobuf/proto"
 
 	parser "github.com/anz-bank/sysl/pkg/grammar"
 	"github.com/anz-bank/sysl/pkg/sysl"
@@ -1693,17 +1694,23 @@ func (s *TreeShapeListener) addToCurrentScope(stmt *sysl.Statement) {
 	}
 }
 
+// mergeAttrs adds the attributes of src to dst: a new name is added, two arrays are concatenated, anything
+// else is replaced. dst gets copies: the attributes of src may be merged into many places (every method below
+// a REST path, every call matched by a collector entry), and an array appended to in one of them must not
+// grow in the others, nor in src.
 func mergeAttrs(src map[string]*sysl.Attribute, dst map[string]*sysl.Attribute) {
 	for k, v := range src {
 		if _, has := dst[k]; !has {
-			dst[k] = v
+			dst[k] = proto.Clone(v).(*sysl.Attribute)
 		} else {
 			dstAttr, dstOK := dst[k].Attribute.(*sysl.Attribute_A)
 			vAttr, vOK := v.Attribute.(*sysl.Attribute_A)
 			if dstOK && vOK {
-				dstAttr.A.Elt = append(dstAttr.A.Elt, vAttr.A.Elt...)
+				for _, e := range vAttr.A.Elt {
+					dstAttr.A.Elt = append(dstAttr.A.Elt, proto.Clone(e).(*sysl.Attribute))
+				}
 			} else {
-				dst[k] = v
+				dst[k] = proto.Clone(v).(*sysl.Attribute)
 			}
 		}
 	}
